@@ -1041,10 +1041,12 @@ class Deferred(Awaitable[_SelfResultT]):
             current = chain[-1]
 
             if current.paused:
-                # This Deferred isn't going to produce a result at all.  All the
-                # Deferreds up the chain waiting on it will just have to...
-                # wait.
-                return
+                # This Deferred isn't going to produce a result right now.  It
+                # will run its own callbacks when it is unpaused; the Deferred
+                # below it on the stack (which has already handed its result
+                # over) still has to finish its own callbacks.
+                chain.pop()
+                continue
 
             finished = True
             current._chainedTo = None
